@@ -172,3 +172,13 @@ EXTRA["C06"] = EXTRA.get("C06", []) + [
     M("p2sh-scriptsig-not-push-only", "tx.py", "        if script_pubkey.is_p2sh() and any(\n            isinstance(command, int) and command > 0x60\n",
       "        if False and any(\n            isinstance(command, int) and command > 0x60\n", ["C06.23"], "opcodes next to the RedeemScript push accepted (F39 undone)"),
 ]
+
+EXTRA["C10"] = EXTRA.get("C10", []) + [
+    M("global-xpub-network-from-path", "psbt.py", "            network = hd_key.network\n        hd_key.add_raw_path_data(read_varstr(s), network=network)\n",
+      "            pass\n        hd_key.add_raw_path_data(read_varstr(s), network=network)\n", ["C10.23"], "the key-origin path decides the version bytes written back (F40 undone)"),
+]
+
+EXTRA["C10"] = EXTRA.get("C10", []) + [
+    M("helper-hd-pubs-keyed-by-record", "psbt_helper.py", "        hd_pubs[named_global_hd_pubkey_obj.raw_serialize()] = named_global_hd_pubkey_obj\n",
+      "        hd_pubs[named_global_hd_pubkey_obj.serialize()] = named_global_hd_pubkey_obj\n", ["C10.24"], "helper keys the global xpub map by the whole record (F41 undone)"),
+]
